@@ -89,7 +89,12 @@ def extendOp (v : Buf) (d : Bytes) (ans : Option Nat) : St × String :=
   | .done v' => (.buf v' false, "ext:ok " ++ showBuf v')
   | .notSupported => (.buf v false, "ext:unsupported")
   | .grow => (.buf v false, "ext:grow")
-  | .fault f => (.buf v false, "ext:" ++ showFault f)
+  | .fault f =>
+    -- the reserve step may already have grown the root before the fault
+    let v' := match v.reserveWith d.length false ans with
+      | .done v1 _ => v1
+      | _ => v
+    (.buf v' false, "ext:" ++ showFault f)
 
 def bufOp (v : Buf) (w : List String) : St × String :=
   match w with
